@@ -100,7 +100,7 @@ Proof.
   - rewrite (apply_tc_other sigma i _ _ _ t H) in Htc by (rewrite Hc; discriminate). eauto.
   - destruct (Nat.eq_dec t t0) as [->|Hne].
     + destruct (nth_error (s_trans x) t0) as [ts|] eqn:Hts; [|unfold apply_transition in H; rewrite Hc, Hts in H; discriminate].
-      destruct (apply_tc_self sigma i _ _ _ _ _ H Hc Hts) as [st' [oc' [jb' [E [[z ->]|[->|Hw]]]]]]; rewrite E in Htc; inversion Htc; subst.
+      destruct (apply_tc_self sigma i _ _ _ _ _ H Hc Hts) as [st' [oc' [jb' [E [[[z ->]|[->|[Hw _]]] _]]]]]; rewrite E in Htc; inversion Htc; subst.
       * exact I.
       * apply (D t0 (t_st ts) (t_occ ts) (t_job ts)). apply tc_of; auto.
       * eapply waiting_time_no_dep; eauto.
@@ -379,7 +379,7 @@ Theorem reach_side2 fuel x0 joker0 ta r m :
   NO x0 -> J x0 -> reach sigma i fuel x0 joker0 ta r m -> reachS2 sigma i fuel x0 joker0 ta r m.
 Proof.
   intros N Hj H.
-  destruct (reach_reachG sigma i Hnn J Q side2 J_apply J_now Q_timed Q_timed0 Q_offer offers_not_transit _ _ _ _ _ _ N Hj H)
+  destruct (reach_reachG sigma i Hnn J Q side2 (fun _ => not_transit) J_apply J_now Q_timed Q_timed0 Q_offer offers_not_transit _ _ _ _ _ _ N Hj H)
     as [A _]. exact A.
 Qed.
 
@@ -388,7 +388,7 @@ Theorem reach_J fuel x0 joker0 ta r m :
   exists xq, NO xq /\ J xq /\ (r_x r = xq \/ (r_offers r = [] /\ exists z, r_x r = set_now xq z)).
 Proof.
   intros N Hj H.
-  destruct (reach_reachG sigma i Hnn J Q side2 J_apply J_now Q_timed Q_timed0 Q_offer offers_not_transit _ _ _ _ _ _ N Hj H)
+  destruct (reach_reachG sigma i Hnn J Q side2 (fun _ => not_transit) J_apply J_now Q_timed Q_timed0 Q_offer offers_not_transit _ _ _ _ _ _ N Hj H)
     as [_ [_ B]]. exact B.
 Qed.
 
@@ -397,7 +397,7 @@ Theorem reach_micro_side2 fuel x0 joker0 ta r m a r' m' lg :
   forall tr y, In (tr, y) lg -> J y /\ side2 tr y = true.
 Proof.
   intros N Hj H Hm.
-  exact (reach_micro_J sigma i Hnn J Q side2 J_apply J_now Q_timed Q_timed0 Q_offer offers_not_transit _ _ _ _ _ _ _ _ _ _ N Hj H Hm).
+  exact (reach_micro_J sigma i Hnn J Q side2 (fun _ => not_transit) J_apply J_now Q_timed Q_timed0 Q_offer offers_not_transit _ _ _ _ _ _ _ _ _ _ N Hj H Hm).
 Qed.
 
 (* ---------- the unconditional statements ---------- *)
